@@ -24,5 +24,50 @@ def trio_sleep(I, args, kwargs):
     return Coro(thunk, "trio.sleep")
 
 
+fmt_names = z3.Function("fmt_names", z3.StringSort(), z3.StringSort(), z3.BoolSort())
+logger_of = z3.Function("logger_of", z3.StringSort(), z3.IntSort())
+
+
+def names_within(msg_str, keys):
+    """every %(name)s field of the template msg is one of keys"""
+    k = z3.String("fk")
+    return z3.ForAll([k], z3.Implies(fmt_names(msg_str, k), z3.Or(*[k == z3.StringVal(x) for x in keys]) if keys else z3.BoolVal(False)))
+
+
+def str_mod(I, fmt, arg):
+    """'template' % mapping (assumed): raises KeyError iff the template names a key the mapping lacks; otherwise
+    returns a str or raises TypeError/ValueError for a malformed conversion (which propagate)"""
+    ctx = I.ctx
+    arg2 = ctx.from_val(arg) if isinstance(arg, SV) else arg
+    if not isinstance(arg2, VDict):
+        return NotImplemented
+    ctx.ghost["nondet"] = True
+    sv = ctx.to_val(fmt)
+    ok = names_within(Z.Val.s(sv.t), list(arg2.items.keys()))
+    d = ctx.choose(4, "%-format")
+    if d == 0:
+        ctx.assume(ok)
+        return B.opaque_str(I, "%-formatting with a mapping")
+    if d == 1:
+        ctx.assume(z3.Not(ok))
+        raise PyRaise(I.make_exception(ExternalRef("KeyError"), []))
+    ctx.assume(ok)
+    raise PyRaise(I.make_exception(ExternalRef("TypeError" if d == 2 else "ValueError"), []))
+
+
+def get_logger(I, args, kwargs):
+    """logging.getLogger(name): the logger object is a function of the name"""
+    ctx = I.ctx
+    ctx.ghost["nondet"] = True
+    name = ctx.to_val(args[0] if args else kwargs.get("name"))
+    ty = I.E.shared_types["PyLogger"]
+    t = Z.mk_ref(logger_of(Z.Val.s(name.t)))
+    sv = SV(t, ty)
+    ctx.assume(z3.And(logger_of(Z.Val.s(name.t)) > 0, logger_of(Z.Val.s(name.t)) < ctx.alloc0))
+    ctx.assume_class(t, ty)
+    ctx.assume(z3.Select(ctx.field_array("name"), Z.Val.id(t)) == name.t)
+    return sv
+
+
 def install(E):
-    E.externals.update({"trio.sleep": trio_sleep})
+    E.externals.update({"trio.sleep": trio_sleep, "str.__mod__": str_mod, "logging.getLogger": get_logger})
